@@ -565,9 +565,10 @@ Definition apply_noncontextual_gated (l : aat_lookup) (ng : N) (g : rgate) (b : 
 
 Definition apply_subtable (k : morx_kind) (ng : N) (gate : option rgate) (ecap : nat) (b : zbuf) (ops : Z) : result (zbuf * Z * N) :=
   match k with
-  | MRearrangement t => drive rearr_machine t ng gate ecap (O, O) b ops
-  | MContextual t subs => drive (ctx_machine subs ng) t ng gate ecap (false, O) b ops
-  | MLigature t actions comps ligs => drive (lig_machine actions comps ligs) t ng gate ecap lig_ctx0 b ops
+  (* only insertion makes the buffer grow: the evaluation cut applies there *)
+  | MRearrangement t => drive rearr_machine t ng gate O (O, O) b ops
+  | MContextual t subs => drive (ctx_machine subs ng) t ng gate O (false, O) b ops
+  | MLigature t actions comps ligs => drive (lig_machine actions comps ligs) t ng gate O lig_ctx0 b ops
   | MNonContextual l =>
     match gate with
     | None => Ok (apply_noncontextual l ng b, ops, 0)
